@@ -96,10 +96,17 @@ def setdefaultAppendE : PyVal → PyVal → PyVal → Res
 
 /-! ### a dict keyed by identities (ints): the insertion-ordered list of its `[key, value]` entries -/
 
+/-- an entry `[key, value]` -/
+def entryOf : PyVal → Option (PyVal × PyVal)
+  | .list [k, v] => some (k, v)
+  | _ => Option.none
+
 def idLookup (k : PyVal) : List PyVal → Option PyVal
   | [] => Option.none
-  | .list [k', v] :: rest => if pyEq k' k then some v else idLookup k rest
-  | _ :: rest => idLookup k rest
+  | e :: rest =>
+    match entryOf e with
+    | some (k', v) => if pyEq k' k then some v else idLookup k rest
+    | Option.none => idLookup k rest
 
 /-- `d.get(k, default)` -/
 def idGet (d k dflt : PyVal) : PyVal :=
